@@ -191,6 +191,12 @@ func ToCFG(g gx.G) *grammar.CFG {
 	return c
 }
 
+// Builds reports whether NewCFG returns for g within the watchdog's time (every executor asks once per case, before it
+// builds the grammar outside a watchdog: NewCFG fills hash tables, and a table that cannot place a key never returns).
+func Builds(g gx.G) bool {
+	return hx.WithTimeout(callTimeout, func() { ToCFG(g) })
+}
+
 // FromCFG reads a library grammar back into canonical form (sorted). It reads every set and every
 // production's head and body symbol by symbol, so it is a deep, independent rendering of the value.
 func FromCFG(c *grammar.CFG) gx.G {
